@@ -127,7 +127,7 @@ Lemma res_obs_eqb_refl o : res_obs_eqb o o = true.
 Proof. destruct o; cbn; try reflexivity. apply err_eqb_refl. Qed.
 
 Lemma resp_obs_eqb_refl o : resp_obs_eqb o o = true.
-Proof. unfold resp_obs_eqb. now rewrite N.eqb_refl, !str_eqb_refl, Bool.eqb_reflx. Qed.
+Proof. unfold resp_obs_eqb. now rewrite !N.eqb_refl, !str_eqb_refl, Bool.eqb_reflx. Qed.
 
 (** ** [serve] never forwards to an empty target list *)
 
